@@ -664,6 +664,181 @@ def gain_normalisation(ctx, p, RULE="C13-R3"):
             ctx.fail(RULE, b.path, name + " form", "%s is not the gain normalisation (recognised stores %s, copy of the other coefficients for gamma = 0: %s)" % (name, sorted(k for k, v in got.items() if v), copies), b.loc())
 
 
+def gamma_conversion(ctx, p, RULE="C13-R3"):
+    """mgc2mgc and gc2gc: the conversion of the generalised cepstrum from gamma1 to gamma2 that turns
+    the LPC polynomial (gamma = -1) into the MGLSA coefficients (gamma = -1/stage).
+    mgc2mgc: for equal alpha gnorm -> gc2gc(m2, gamma) -> ignorm; otherwise freqt(m2, (a2 - a1)/(1 -
+    a1 a2)) first.  gc2gc: c'[0] = c[0]; for i = 1..=m2: c'[i] = c[i]*[i < len] + (g2*S2 - g1*S1)/i
+    with S1 = sum_k (i-k) c[k] c'[i-k], S2 = sum_k k c[k] c'[i-k], k = 1..min(len, i), both from 0."""
+    from ..loops import loop_var_parts
+    MG = "vocoder::cepstrum::MelGeneralizedCepstrum::"
+    m = cm.body_or_fail(ctx, p, RULE, MG + "mgc2mgc")
+    if m is not None:
+        meb = ExprBuilder(m)
+        seen = {}
+        for rbb, e, item in paths.return_exprs(m, meb):
+            br = None
+            for g in paths.guards(m, rbb, meb):
+                if g[0] in ("true", "false"):
+                    pos, c = paths.bool_atoms(g)
+                    if c[0] == "bin" and c[1] in ("Eq", "Ne") and {show(c[2]), show(c[3])} == {"self.alpha", "alpha"}:
+                        br = "same" if (c[1] == "Eq") == pos else "other"
+            sh = show(e)
+            if br == "same":
+                seen[br] = sh == "vocoder::generalized::Generalized::ignorm(%sgc2gc(vocoder::generalized::Generalized::gnorm(self), m2, gamma))" % MG
+            elif br == "other":
+                ok = e[0] == "call" and e[1].endswith("ignorm") and e[2][0][0] == "call" and e[2][0][1] == MG + "gc2gc" and [show(x) for x in e[2][0][2][1:]] == ["m2", "gamma"]
+                inner = e[2][0][2][0] if ok else None
+                ok = ok and inner[0] == "call" and inner[1].endswith("gnorm") and inner[2][0][0] == "call" and inner[2][0][1].endswith("freqt")
+                if ok:
+                    fa = inner[2][0][2]
+                    A1, A2 = Poly.atom(("A1",)), Poly.atom(("A2",))
+                    at = lambda x: ("A1",) if show(x) == "self.alpha" else (("A2",) if show(x) == "alpha" else None)
+                    w = fa[2]
+                    ok = show(fa[0]) == "self" and show(fa[1]) == "m2" and w[0] == "bin" and w[1] == "Div" and to_poly(w[2], at) == A2 - A1 and to_poly(w[3], at) == Poly.const(1) - A1 * A2
+                seen[br] = bool(ok)
+        if seen.get("same") and seen.get("other"):
+            ctx.ok(RULE, "mgc2mgc: equal alpha -> gnorm, gc2gc(m2, gamma), ignorm; otherwise freqt(m2, (a2 - a1)/(1 - a1*a2)) first", m.loc())
+        elif set(seen) != {"same", "other"}:
+            ctx.note("mgc2mgc: the two branches on `self.alpha == alpha` were not recognised in this spelling; the conversion-chain clause was not evaluated")
+        else:
+            ctx.fail(RULE, m.path, "conversion chain", "mgc2mgc is not gnorm -> gc2gc(m2, gamma) -> ignorm (with the relative frequency transform in front when the alphas differ): %s" % seen, m.loc())
+    b = cm.body_or_fail(ctx, p, RULE, MG + "gc2gc")
+    if b is None:
+        return
+    eb = ExprBuilder(b)
+    ret = eb.local(0)
+    okret = ret[0] == "agg" and ret[3] and dict(zip(ret[3], [show(x) for x in ret[2]])) == {"buffer": "std::vec::from_elem(0.0, Add(m2, 1))", "alpha": "self.alpha", "gamma": "gamma"}
+    names = {d.get("name"): l for l, d in enumerate(b.locals) if d.get("name")}
+
+    def lv_kind(e):
+        lv = loop_var_parts(e)
+        if lv is None:
+            return None
+        d, s_, e_ = lv
+        if d == "up" and to_poly(s_) == Poly.const(1) and show(e_) in ("Add(m2, 1)",):
+            return "I"
+        if d == "up" and to_poly(s_) == Poly.const(1) and e_[0] == "call" and e_[1].endswith("::min") and len(e_[2]) == 2:
+            a_, b_ = e_[2]
+            if {("len" if (x[0] == "len" and show(x[1]) == "self") else ("I" if lv_kind(x) == "I" else "?")) for x in (a_, b_)} == {"len", "I"}:
+                return "K"
+        return None
+
+    def at(e):
+        k = lv_kind(e)
+        if k:
+            return (k,)
+        if e[0] == "cast" and lv_kind(e[2]):
+            return (lv_kind(e[2]),)
+        if e[0] == "idx" and show(e[1]) == "self":
+            return ("C", to_poly(e[2], at).key())
+        if e[0] == "idx" and canon(e[1]) == canon(ret):
+            return ("D", to_poly(e[2], at).key())
+        if show(e) == "gamma":
+            return ("G2",)
+        if show(e) == "self.gamma":
+            return ("G1",)
+        if e[0] == "var" and e[2] in ("ss1", "ss2") or (e[0] == "var" and isinstance(e[1], int) and b.local_name(e[1]) in acc_names):
+            return ("ACC", b.local_name(e[1]) if isinstance(e[1], int) else e[2])
+        return None
+    # the two accumulators: f64 locals with one zero definition and one `acc + term` definition
+    acc = {}
+    acc_names = set()
+    for l, d in enumerate(b.locals):
+        if d.get("ty") != "f64" or l == 0 or l <= b.argc:
+            continue
+        ds = [x for x in b.defs().get(l, []) if not b.is_cleanup(x[0]) and x[1] != "term"]
+        if len(ds) != 2:
+            continue
+        ex = [eb.at(x[0], x[1]).rvalue(x[2]["rv"]) for x in ds]
+        zero = [x for x in ex if x[0] == "c" and float(x[1]) == 0.0]
+        upd = [x for x in ex if x[0] == "bin" and x[1] in ("Add", "Sub") and x[2][0] == "var" and x[2][1] == l]
+        if len(zero) == 1 and len(upd) == 1:
+            acc[l] = upd[0][3] if upd[0][1] == "Add" else ("un", "Neg", upd[0][3])
+            acc_names.add(b.local_name(l))
+    I, K = Poly.atom(("I",)), Poly.atom(("K",))
+    Ck = Poly.atom(("C", K.key()))
+    Dik = Poly.atom(("D", (I - K).key()))
+    kinds = {}
+    wrong_acc = []
+    for l, term in acc.items():
+        pol = to_poly(term, at)
+        if pol == (I - K) * Ck * Dik:
+            kinds["S1"] = l
+        elif pol == K * Ck * Dik:
+            kinds["S2"] = l
+        elif any(a_[0] in ("C", "D") for a_ in pol.atoms()) and not any(w_ in repr(list(pol.atoms())) for w_ in ("'call'", "'field'", "'variant'", "'var'", "'arg'")):
+            # written in the clause's own terms (index loops over i and k) and still not S1 / S2
+            wrong_acc.append((b.local_name(l), str(pol)[:120]))
+    okacc = set(kinds) == {"S1", "S2"}
+    for nm_, pol_ in wrong_acc:
+        ctx.fail(RULE, b.path, "accumulator " + str(nm_), "gc2gc accumulates %s per (i, k); expected (i-k)*c[k]*c'[i-k] (S1) or k*c[k]*c'[i-k] (S2)" % pol_, b.loc())
+    got = {"c0": False, "in": False, "out": False}
+    wrong_store = []
+    if okacc:
+        S1 = Poly.atom(("ACC", b.local_name(kinds["S1"])))
+        S2 = Poly.atom(("ACC", b.local_name(kinds["S2"])))
+        G1, G2 = Poly.atom(("G1",)), Poly.atom(("G2",))
+        Ci = Poly.atom(("C", I.key()))
+        for bb, i, st, tgt, root, chain, val in stores(b, eb):
+            if not (tgt[0] == "idx" and canon(tgt[1]) == canon(ret)):
+                continue
+            ip = to_poly(tgt[2], at)
+            if ip == Poly.const(0):
+                got["c0"] = show(val) == "self[0]" and not [g for g in paths.guards(b, bb, eb) if g[0] in ("true", "false", "some")]
+                continue
+            if ip != I:
+                continue
+            # one store of a merged temporary (`c[i] = match self.get(i) { Some(c) => c + r, None => r }`)
+            # is judged per definition, each under the guards of its own block
+            altv = [(val, bb)]
+            if val[0] == "var" and isinstance(val[1], int):
+                ds_ = [x for x in b.defs().get(val[1], []) if not b.is_cleanup(x[0]) and x[1] != "term"]
+                if len(ds_) >= 2:
+                    altv = [(eb.at(x[0], x[1]).rvalue(x[2]["rv"]), x[0]) for x in ds_]
+            for v, vbb in altv:
+                inside = None
+                for g in paths.guards(b, vbb, eb):
+                    if g[0] in ("true", "false"):
+                        pos, c = paths.bool_atoms(g)
+                        if c[0] == "bin" and c[1] in ("Lt", "Ge") and to_poly(c[2], at) == I and c[3][0] == "len" and show(c[3][1]) == "self":
+                            inside = (c[1] == "Lt") == pos
+                        elif c[0] == "bin" and c[1] in ("Gt", "Le", "Eq", "Ne") and to_poly(c[2], at) == I and c[3][0] == "len" and show(c[3][1]) == "self":
+                            wrong_store.append("the own-coefficient term is selected by `i %s len`, expected `i < len`" % {"Gt": ">", "Le": "<=", "Eq": "==", "Ne": "!="}[c[1]])
+                # value: [C_i +] (G2*S2 - G1*S1) / I
+                num = None
+                rest = Poly.const(0)
+                if v[0] == "bin" and v[1] == "Add":
+                    for a_, q_ in ((v[2], v[3]), (v[3], v[2])):
+                        if q_[0] == "bin" and q_[1] == "Div":
+                            rest, v = to_poly(a_, at), q_
+                            break
+                if v[0] == "bin" and v[1] == "Div" and to_poly(v[3], at) == I:
+                    num = to_poly(v[2], at)
+                if num is not None and num == G2 * S2 - G1 * S1:
+                    if inside is True and rest == Ci:
+                        got["in"] = True
+                    elif inside is False and rest == Poly.const(0):
+                        got["out"] = True
+                    elif inside is not None:
+                        wrong_store.append("c'[i] <- %s + (g2*S2 - g1*S1)/i on the `i %s len` side" % (rest, "<" if inside else ">="))
+                elif num is not None:
+                    wrong_store.append("c'[i] <- .. + (%s)/i" % str(num)[:100])
+    for w_ in wrong_store:
+        ctx.fail(RULE, b.path, "recursion value", "gc2gc stores %s; expected c[i]*[i < len] + (g2*S2 - g1*S1)/i" % w_, b.loc())
+    if wrong_acc or wrong_store:
+        return
+    if not (okret and okacc and all(got.values())) and okret and not (okacc and got["in"] and got["out"]):
+        # nothing recognisable in this spelling (no accumulators of the expected kind at all, or
+        # the final store is written in a form the clause does not read): not evaluated
+        ctx.note("gc2gc: recursion not recognised in this spelling (accumulators %s, stores %s); the gamma-conversion clause was not evaluated" % (sorted(kinds), {k_: bool(v_) for k_, v_ in got.items()}))
+        return
+    if okret and okacc and all(got.values()):
+        ctx.ok(RULE, "gc2gc: c'[0] = c[0]; c'[i] = c[i]*[i < len] + (g2*S2 - g1*S1)/i, S1 = sum (i-k) c[k] c'[i-k], S2 = sum k c[k] c'[i-k], k = 1..min(len, i), i = 1..=m2, result tagged (self.alpha, gamma)", b.loc())
+    else:
+        ctx.fail(RULE, b.path, "gamma conversion", "gc2gc is not the generalised-cepstrum gamma conversion (result literal ok: %s, accumulators recognised: %s, stores recognised: %s)" % (bool(okret), sorted(kinds), {k_: bool(v_) for k_, v_ in got.items()}), b.loc())
+
+
 def run(ctx):
     ctx.rule("C13-R1", "lsp2lpc separates gain and frequencies: order m = len - 1; P factors from elements 1,3,5,.. and Q factors from elements 2,4,6,.. each as -2 cos(w); element 0 never enters a cosine; section counts (m/2, m/2) / ((m+1)/2, (m-1)/2)")
     ctx.rule("C13-R2", "lsp2lpc recursion: x0[i+1] = x0[i] + c[i]*x1[i] + x2[i] with x2 <- x1 <- x0 for both chains, chain inputs (even: xx + xf, xx - xf; odd: xx, xx - xff), output a[k-1] = -0.5*(P chain + Q chain) for k >= 1 over k in 0..=m, then a[i+1] <- -a[i] (i descending), a[0] <- 1")
@@ -1113,6 +1288,7 @@ def run(ctx):
                 ctx.fail("C13-R3", lb_.path, "alpha / gamma tag", "lsp2lpc tags its polynomial with alpha = %s, gamma = %s instead of self.alpha / self.gamma: mgc2mgc(len - 1, self.alpha, self.gamma) then warps (or gamma-converts) coefficients that already are on the voice's axis" % (show(a_) if a_ is not None else None, show(g_) if g_ is not None else None), loc_)
 
     gain_normalisation(ctx, p)
+    gamma_conversion(ctx, p)
 
     # ---- R4
     sn = cm.body_or_fail(ctx, p, "C13-R4", "vocoder::stage::Stage::new")
